@@ -1874,6 +1874,12 @@ func (t *tScreen) parseRune(buf *bytes.Buffer, evs *[]Event) (bool, bool) {
 		if e == transform.ErrShortSrc {
 			continue
 		}
+		if e != nil && nOut == 0 {
+			// conclusively no character, however many bytes follow (an
+			// invalid byte in UTF-8): not a rune in the making.  Waiting
+			// would hold back everything behind it until the input pauses.
+			return false, false
+		}
 		if nOut != 0 {
 			r, n := utf8.DecodeRune(utf[:nOut])
 			if r != utf8.RuneError {
